@@ -1193,6 +1193,10 @@ pub fn check_state(w: &World, book: &Book, cfg: Option<&Cfg>, h: &mut Hist, st: 
         Some(c) => c,
         None => return,
     };
+    if !book.odd_asks.is_empty() || !book.odd_bids.is_empty() {
+        // entries in another storage format (a not-yet-migrated legacy book): amounts owed cannot be read
+        return;
+    }
     let mut hasher: Vec<u8> = vec![];
     let mut owed: BTreeMap<String, i128> = BTreeMap::new();
     for (k, a) in &book.asks {
